@@ -190,6 +190,29 @@ def run_fuzzer(ctx, seconds, seed):
     shutil.rmtree(d, ignore_errors=True)
 
 
+UNREACH_DOC = ('<scxml xmlns="http://www.w3.org/2005/07/scxml" version="1.0" datamodel="null" name="u"><state id="s0" vid="s0"><onentry>%s</onentry>'
+               '<transition event="error.communication" target="s1" vid="tc"/><transition event="error.execution" target="s2" vid="tx"/>'
+               '<transition event="m" target="s3" vid="tm"/></state><state id="s1" vid="s1"/><state id="s2" vid="s2"/><state id="s3" vid="s3"/></scxml>')
+UNREACH_TARGETS = {"#_nosuchinvoke": "error.communication", "#_parent": "error.communication",
+                   "#_scxml_00000000-0000-0000-0000-000000000000": "error.communication", "nonsense-target": "error.execution"}
+
+
+def check_unreachable_send(ctx, target, delay, engine):
+    """a <send> whose target cannot be reached - immediately, or only found out when its delay has passed (then the failure
+    happens on the timer thread): the error event is queued, the process lives, the interpreter keeps running"""
+    send = '<send vid="u0" event="t" target="%s"%s/><raise vid="r0" event="nothing"/>' % (target, ' delay="%dms"' % delay if delay else '')
+    r = run_engine(ctx, UNREACH_DOC % send, engine, [], "idlewait=%d" % (delay + 70))
+    if r.get("exception"):
+        raise Failure("exception", {"exception": r["exception"][:300], "signature": "unreachable-exception"})
+    evs = [e[1] for e in r["trace"] if e[0] == 'ev']
+    want = UNREACH_TARGETS[target]
+    if want not in evs:
+        raise Failure("error-event-missing", {"target": target, "delay_ms": delay, "engine": engine, "expected": want, "events_processed": evs,
+                                              "signature": ["unreachable", want, "delayed" if delay else "immediate"]})
+    ctx.count(harness.h64("unreach", target, str(delay), engine), True, ['unreachable-send', 'delayed' if delay else 'immediate'],
+              sample={"target": target, "delay_ms": delay, "engine": engine, "events_processed": evs})
+
+
 def shard_main(ctx):
     p = ctx.params
     n = ctx.nshards
@@ -207,6 +230,8 @@ def shard_main(ctx):
             ctx.run_hypothesis([gen.charts(od, dm), gen.event_histories()],
                                lambda ch, evs, engine=engine, dm=dm: check_fault_case(ctx, ch, evs, engine, dm), p["faults"] // (4 * g) + 1,
                                lambda ch, evs, engine=engine, dm=dm: dict(case_repr(ch, evs), engine=engine, dm=dm), name="fault" + dm + engine)
+    ctx.run_hypothesis([st.sampled_from(sorted(UNREACH_TARGETS)), st.sampled_from([0, 0, 3, 10, 25]), st.sampled_from(['large', 'fast'])],
+                       lambda tg, d, e: check_unreachable_send(ctx, tg, d, e), 6, lambda tg, d, e: {"unreachable": [tg, d, e]}, name="unreachable")
     for engine in ('large', 'fast'):
         ctx.run_hypothesis([gen.charts(gen.GenOpts(max_states=6), 'lua'), gen.event_histories(3), damage_ops],
                            lambda ch, evs, ops, engine=engine: check_damaged(ctx, ch, evs, ops, engine), p["damaged"] // (2 * g) + 1,
@@ -217,6 +242,9 @@ def replay(ctx, case):
     try:
         if "fuzz_input_hex" in case:
             r = run_engine(ctx, bytes.fromhex(case["fuzz_input_hex"]).decode('latin-1'), "large", [], "validate")
+            return []
+        if "unreachable" in case:
+            check_unreachable_send(ctx, *case["unreachable"])
             return []
         ch, events = harness.unpack(case["pickle"])
         if "ops" in case:
